@@ -5,7 +5,7 @@
 #include "vp.h"
 using namespace asl;
 
-// p0 = size, p1 = variant: 0 put/content, 1 write in two pieces + append + reopen, 2 stream operators, 3 one object queried/reopened/closed/queried
+// p0 = size, p1 = variant: 0 put/content, 1 write in two pieces + append + reopen, 2 stream operators, 3 one object queried/reopened/closed/queried, 4 queried while open for writing
 extern "C" void h_bytes(void)
 {
 	int n = vp_param(0), variant = vp_param(1);
@@ -18,6 +18,18 @@ extern "C" void h_bytes(void)
 		int k = vp_concretize(vp_range(0, n));
 		{ File f(path, File::WRITE); vp_assert(f.write(d, k) == k, "write returns the count"); }
 		{ File f(path, File::APPEND); vp_assert(f.write(d + k, n - k) == n - k, "append write returns the count"); }
+	} else if (variant == 4) {
+		// metadata queried while the file is open for writing, more written through the same object, then closed
+		int k = vp_concretize(vp_range(0, n));
+		File f(path, File::WRITE);
+		vp_assert(f.write(d, k) == k, "write returns the count");
+		(void)f.size(); (void)f.isFile();                    // (what these return while the stream is open is not constrained)
+		vp_assert(f.write(d + k, n - k) == n - k, "second write returns the count");
+		f.close();
+		vp_assert(f.size() == n, "size() after close equals all the bytes written, also when it was queried in between");
+		ByteArray c4 = f.content();
+		vp_assert(c4.length() == n, "content() after close has all the bytes written");
+		for (int i = 0; i < n && i < c4.length(); i++) vp_assert(c4[i] == d[i], "content() bytes after a query in between");
 	} else if (variant == 3) {
 		// one File object over its whole life: queried, reopened for appending, closed, queried again
 		int k = vp_concretize(vp_range(0, n));
@@ -123,4 +135,19 @@ extern "C" void h_bom(void)
 	vp_assert(s.length() == rl, "text() of a BOM file: UTF-8 length");
 	for (int i = 0; i < rl && i < s.length(); i++) vp_assert((byte)(*s)[i] == ref[i], "text() of a BOM file: UTF-8 bytes");
 	vp_reach(3);
+}
+
+// BOM-less text: every 3 NUL-free, CR-free bytes that are not one of the three byte-order marks, followed by "xy": text() returns the bytes unchanged
+extern "C" void h_nobom(void)
+{
+	byte file[8]; int fl = 0;
+	for (int i = 0; i < 3; i++) { byte c = nondet_u8(); vp_assume(c != 0 && c != '\r'); file[fl++] = c; }
+	vp_assume(!(file[0] == 0xEF && file[1] == 0xBB && file[2] == 0xBF) && !(file[0] == 0xFF && file[1] == 0xFE) && !(file[0] == 0xFE && file[1] == 0xFF));
+	file[fl++] = 'x'; file[fl++] = 'y';
+	{ File w("n.txt", File::WRITE); w.write(file, fl); }
+	String s = TextFile("n.txt").text();
+	vp_assert(s.length() == fl, "text() of a file without byte-order mark has every byte (also when it starts like a mark)");
+	for (int i = 0; i < fl && i < s.length(); i++) vp_assert((byte)(*s)[i] == file[i], "text() bytes of a BOM-less file");
+	vp_note(s.length());
+	vp_reach(5);
 }
